@@ -138,10 +138,17 @@ class Model:
             if p.name is not None:
                 env[p.name] = (subj, None)
             return z3.BoolVal(True), env
-        if isinstance(p, ast.MatchClass) and isinstance(p.cls, ast.Name) and not p.patterns and not p.kwd_patterns:
-            if p.cls.id not in CLASSES:
-                raise CannotEncode(f"class pattern {p.cls.id}")
-            return self.is_(p.cls.id, subj), env
+        if isinstance(p, ast.MatchClass) and isinstance(p.cls, ast.Name) and not p.kwd_patterns:
+            c = p.cls.id
+            if c not in CLASSES:
+                raise CannotEncode(f"class pattern {c}")
+            if len(p.patterns) > len(self.fields[c]):
+                raise CannotEncode(f"too many positional sub-patterns for {c}")
+            conds = [self.is_(c, subj)]
+            for fld, sp in zip(self.fields[c], p.patterns):  # match_args=True dataclasses: positional patterns follow field order
+                cc, env = self.pattern(sp, self.acc(c, fld, subj), env)
+                conds.append(cc)
+            return z3.And(*conds) if len(conds) > 1 else conds[0], env
         if isinstance(p, ast.MatchSequence) and isinstance(subj, tuple) and len(p.patterns) == len(subj):
             conds = []
             for pp, sj in zip(p.patterns, subj):
@@ -184,8 +191,9 @@ class Model:
         if isinstance(e, ast.BinOp) and isinstance(e.op, (ast.BitAnd, ast.BitOr)):
             l, r = self.expr(e.left, env), self.expr(e.right, env)
             return self.build("AndSel" if isinstance(e.op, ast.BitAnd) else "OrSel", l, r)
-        if isinstance(e, ast.Compare) and len(e.ops) == 1 and isinstance(e.ops[0], ast.Eq):
-            return self.expr(e.left, env) == self.expr(e.comparators[0], env)
+        if isinstance(e, ast.Compare) and len(e.ops) == 1 and isinstance(e.ops[0], (ast.Eq, ast.NotEq)):
+            l, r = self.expr(e.left, env), self.expr(e.comparators[0], env)
+            return l == r if isinstance(e.ops[0], ast.Eq) else l != r
         if isinstance(e, ast.Call):
             f = e.func
             # isinstance(self.addr, EllipsisType)
